@@ -824,3 +824,162 @@ def c18_runner(prop, tier, seed, replay):
 PROPS["C18"] = {"theorems": ["C18_trace_ok", "C18_cut_no_dangling"], "runner": c18_runner,
                 "assumptions": ["crash model of the property: what persists is a prefix of the program-ordered writes, in-place "
                                 "block rewrites are atomic, both files are cut at the same program point"]}
+
+
+# ---- C16: cooperative interleaving of generator requests --------------------------------------------
+def _c16_worker(job):
+    seed, cfg = job
+    import itertools
+    import session as S
+    rng = random.Random(seed)
+    s = S.Session(rng, cfg.get("backend", "f"))
+    out = {"seed": seed, "mismatches": [], "stats": {}, "ncmds": 0, "digest": 0, "nontrivial": True, "fault": None}
+    try:
+        s.do(1, [rng.choice([0, 1]), []])
+        for i in range(rng.randint(2, cfg["nw"])):
+            op, args = G.gen_write(rng, s.tr, dict(G.DEFAULT_MIX, reopen=0, clear=0))
+            s.do(op, args)
+        specs = cfg.get("specs")
+        if specs is None:
+            specs = []
+            shared = [G.pick_lru(rng, s.tr) for _ in range(3)]      # pages several batches touch
+            for k in range(rng.randint(2, 3)):
+                r = rng.random()
+                if r < 0.65 or k == 0:
+                    pool = shared + [G.pick_lru(rng, s.tr) for _ in range(rng.randint(1, 3))]
+                    data, seen = [], set()
+                    for _ in range(rng.randint(1, 3)):
+                        src = rng.choice(pool)
+                        if src in seen:
+                            continue
+                        seen.add(src)
+                        data.append([src, [rng.choice(pool) for _ in range(rng.choice([0, 1, 2, 3]))]])
+                    specs.append([0, data])
+                elif r < 0.8:
+                    specs.append([1, G.pick_prefix(rng, s.tr), rng.choice([0, 1, 2, 3])])
+                else:
+                    wes = s.webentities()
+                    if wes:
+                        w = rng.choice(list(wes))
+                        specs.append([2, w, wes[w]])
+                    else:
+                        specs.append([1, G.pick_prefix(rng, s.tr), rng.choice([0, 1, 2])])
+        sched = cfg.get("sched")
+        if sched is None:
+            sched = [rng.randrange(len(specs)) for _ in range(rng.randint(0, 50))]
+        # what the page queries may / must return
+        before = {}
+        for k, sp in enumerate(specs):
+            if sp[0] == 2:
+                a = s.do(24, [sp[1], sp[2]])
+                before[k] = None if C.is_err(a) else set(x[0] for x in a)
+        res = s.do(80, [specs, sched])
+        if C.is_err(res):
+            out["fault"] = {"what": "the interleaved run failed: %s" % getattr(res, "detail", res)}
+        else:
+            for k, (sp, r) in enumerate(zip(specs, res)):
+                if isinstance(r[1], I.Crash):
+                    out["fault"] = {"what": "request %d of the interleaving failed: %s" % (k, r[1].detail)}
+        for sp in specs:
+            if sp[0] == 0:
+                for src, tg in sp[1]:
+                    s.tr.lrus += [src] + list(tg)
+                    s.tr.pages += [src] + list(tg)
+        allpages = s.do(35, [])
+        s.do(38, [])
+        s.do(37, [1])
+        s.do(37, [0])
+        for l in list(dict.fromkeys(p for sp in specs if sp[0] == 0 for src, tg in sp[1] for p in [src] + list(tg)))[:8]:
+            s.do(33, [l, 1, 1, 1])
+        if not out["fault"] and not C.is_err(res) and not C.is_err(allpages):
+            for k, sp in enumerate(specs):
+                if sp[0] == 2 and before.get(k) is not None and not C.is_err(res[k][1]):
+                    after = s.do(24, [sp[1], sp[2]])
+                    got = [x[0] for x in res[k][1]]
+                    if len(set(got)) != len(got):
+                        out["fault"] = {"what": "page query under interleaving lists a page twice"}
+                    if not C.is_err(after):
+                        must = before[k] & set(x[0] for x in after)
+                        may = set(x[0] for x in allpages if any(x[0].startswith(p) for p in sp[2]))
+                        if not must <= set(got):
+                            out["fault"] = {"what": "page query under interleaving misses a page that qualified throughout: %r" % sorted(must - set(got))[:1]}
+                        elif not set(got) <= may:
+                            out["fault"] = {"what": "page query under interleaving returned a page that qualified at no moment"}
+        s.do(43, [])
+        s.do(44, [])
+        mm = s.finish(bytes_facet=False)
+        for m in mm:
+            j = m.to_json()
+            # the specification side applies the requests one after another: only the page set and the link multigraph are promised
+            if m.side == "model" or (m.side == "spec" and m.op in (35, 37, 38, 33)):
+                j["props"] = ["C16"]
+                out["mismatches"].append(j)
+        out["ncmds"] = len(s.cmds)
+        out["stats"] = {"coroutines": len(specs), "schedule_steps": len(sched),
+                        "batches": sum(1 for x in specs if x[0] == 0), "rule_installs": sum(1 for x in specs if x[0] == 1),
+                        "page_queries": sum(1 for x in specs if x[0] == 2)}
+        out["digest"] = hash((tuple(K.ser_cmds(s.cmds[:3])), I.fmt(specs), tuple(sched))) & 0xFFFFFFFF
+        if out["fault"] or out["mismatches"]:
+            out["script"] = K.ser_cmds(s.cmds)
+            out["metas"] = s.meta
+        else:
+            out["sample"] = K.ser_cmds([c for c in s.cmds if c[0] == 80])[:1]
+        return out
+    except Exception as e:
+        import traceback
+        out["error"] = "%s: %s" % (type(e).__name__, e)
+        out["trace"] = traceback.format_exc()[-800:]
+        return out
+    finally:
+        s.close()
+
+
+def c16_runner(prop, tier, seed, replay):
+    import itertools
+    n = 2500 if tier == "thorough" else 240
+    jobs = [(seed * 100003 + i, {"nw": 10, "backend": "f" if i % 4 else "m"}) for i in range(n)]
+    # every interleaving of two small batches that share pages (and of a batch with a page query), on a fixed start
+    A = b"s:http|h:com|h:site|p:a|"; B = b"s:http|h:com|h:site|p:a|p:b|"; Cc = b"s:http|h:com|h:site|p:c|"; D = b"s:http|h:org|h:b|"
+    b1 = [0, [[A, [B, Cc]], [Cc, [A]]]]
+    b2 = [0, [[B, [A, D]], [A, [Cc]]]]
+    nsched = 0
+    for pair, steps in (([b1, b2], (5, 5)),):
+        allsched = set(itertools.permutations([0] * steps[0] + [1] * steps[1])) if tier == "thorough" else None
+        if allsched is None:
+            rng = random.Random(seed)
+            allsched = set()
+            while len(allsched) < 60:
+                x = [0] * steps[0] + [1] * steps[1]
+                rng.shuffle(x)
+                allsched.add(tuple(x))
+        for sc in sorted(allsched):
+            jobs.append((seed, {"nw": 3, "specs": pair, "sched": list(sc)}))
+            nsched += 1
+    results = pool_map(_c16_worker, jobs)
+    violations = []
+    for r in results:
+        if r.get("error"):
+            violations.append({"property": prop, "failing_input": False, "broken": "harness error: " + r["error"], "trace": r.get("trace")})
+            break
+    for r in results:
+        if r.get("fault"):
+            violations.append({"property": prop, "failing_input": True, "seed": r["seed"], "what": r["fault"]["what"], "script": r.get("script")})
+            break
+    if not violations:
+        v, k = classify(prop, results, seed, allow_shrink=False)
+        violations += v
+    cov = coverage(results, "random start histories, then 2-3 generator requests (crawl batches sharing pages, rule installations, "
+                            "webentity page queries) started together and advanced by a random schedule with EVERY loop iteration a yield "
+                            "point (should_yield forced), unfinished ones completed afterwards; plus interleavings of two fixed batches that "
+                            "share pages (all 252 in the thorough tier); executed on the real generators and on the coroutine model "
+                            "(Sched.v): replies, answers and raw bytes compared; final pages and link multigraph compared with the "
+                            "specification's sequential application; page-query answers sandwiched between the pages qualifying before and "
+                            "after and the pages existing at the end")
+    cov["fixed_pair_schedules"] = nsched
+    return {"violations": violations[:3], "known": [], "cov": cov}
+
+
+PROPS["C16"] = {"theorems": ["C16_alone_is_batch", "C16_schedule_independent"], "runner": c16_runner,
+                "assumptions": ["yield points = the places where the generators call should_yield; a scheduler step runs one generator "
+                                "from one yield to the next, atomically (cooperative, single-threaded)"]}
+K.FACET_OPS["C16"] = {35, 37, 38, 33, 43, 44}
